@@ -108,6 +108,8 @@ where
                     Err(e) => {
                         error!("Replier sink failed, unbinding replier: {e:?}");
                         *server = None;
+                        #[cfg(selium_verif)]
+                        crate::verif::emit("reqrep_unbind", "sink failed");
                     }
                 }
             }
@@ -279,6 +281,8 @@ where
                         if let Err(e) = ready!(si.poll_flush_unpin(cx)) {
                             error!("Replier sink failed, unbinding replier: {e:?}");
                             *server = None;
+                            #[cfg(selium_verif)]
+                            crate::verif::emit("reqrep_unbind", "sink failed");
                         }
                     }
 
@@ -300,6 +304,8 @@ where
                     if let Err(e) = ready!(si.poll_flush_unpin(cx)) {
                         error!("Replier sink failed, unbinding replier: {e:?}");
                         *server = None;
+                        #[cfg(selium_verif)]
+                        crate::verif::emit("reqrep_unbind", "sink failed");
                     }
                 }
 
